@@ -37,9 +37,14 @@ func init() {
 		mutation{"memory-append-silent", "kv/memory/prefix.go", "	if !v.children.Add(string(child)) {\n		return chord.ErrKVPrefixConflict\n	}\n", "	v.children.Add(string(child))\n", "contract"},
 		mutation{"aof-read-not-delegated", "kv/aof/read_only.go", "	return d.memKv.PrefixContains(ctx, prefix, child)", "	return d.memKv.PrefixContains(ctx, child, prefix)", "aof-delegation"},
 	)
+	mutExtra["removekeys-table-driven"] = [2]string{"func (s *SqliteKV) RemoveKeys(", "var removeKeysTargets = []struct{ table, column string }{\n	{\"simple_entries\", \"key\"},\n	{\"prefix_entries\", \"prefix\"},\n	{\"lease_entries\", \"owner\"},\n	{\"key_trackers\", \"key\"},\n}\n\nfunc (s *SqliteKV) RemoveKeys("}
+	mutExtra["removekeys-table-driven-wrong-column"] = [2]string{"func (s *SqliteKV) RemoveKeys(", "var removeKeysTargetsBad = []struct{ table, column string }{\n	{\"simple_entries\", \"key\"},\n	{\"prefix_entries\", \"child\"},\n	{\"lease_entries\", \"owner\"},\n	{\"key_trackers\", \"key\"},\n}\n\nfunc (s *SqliteKV) RemoveKeys("}
 	mutExtra["list-scan-target-hoisted-fatal-errors"] = [2]string{"			for prefixRows.Next() {", "			var child []byte\n			for prefixRows.Next() {"}
 	addSelfTests("C17",
 		mutation{"list-scan-target-hoisted-fatal-errors", "kv/sqlite3/provider.go", "				var child []byte\n				if err := prefixRows.Scan(&child); err != nil {\n					prefixRows.Close()", "				if err := prefixRows.Scan(&child); err != nil {\n					prefixRows.Close()", "!export-fresh"},
+		mutation{"removekeys-table-driven", "kv/sqlite3/provider.go", "			if _, err := tx.Exec(\"DELETE FROM `simple_entries` WHERE `key` IN (\"+ph+\")\", args...); err != nil {\n				return err\n			}\n			if _, err := tx.Exec(\"DELETE FROM `prefix_entries` WHERE `prefix` IN (\"+ph+\")\", args...); err != nil {\n				return err\n			}\n			if _, err := tx.Exec(\"DELETE FROM `lease_entries` WHERE `owner` IN (\"+ph+\")\", args...); err != nil {\n				return err\n			}\n			if _, err := tx.Exec(\"DELETE FROM `key_trackers` WHERE `key` IN (\"+ph+\")\", args...); err != nil {\n				return err\n			}", "			for _, target := range removeKeysTargets {\n				query := \"DELETE FROM `\" + target.table + \"` WHERE `\" + target.column + \"` IN (\" + ph + \")\"\n				if _, err := tx.Exec(query, args...); err != nil {\n					return err\n				}\n			}", "!table-coverage"},
+		mutation{"removekeys-table-driven-wrong-column", "kv/sqlite3/provider.go", "			if _, err := tx.Exec(\"DELETE FROM `simple_entries` WHERE `key` IN (\"+ph+\")\", args...); err != nil {\n				return err\n			}\n			if _, err := tx.Exec(\"DELETE FROM `prefix_entries` WHERE `prefix` IN (\"+ph+\")\", args...); err != nil {\n				return err\n			}\n			if _, err := tx.Exec(\"DELETE FROM `lease_entries` WHERE `owner` IN (\"+ph+\")\", args...); err != nil {\n				return err\n			}\n			if _, err := tx.Exec(\"DELETE FROM `key_trackers` WHERE `key` IN (\"+ph+\")\", args...); err != nil {\n				return err\n			}", "			for _, target := range removeKeysTargetsBad {\n				query := \"DELETE FROM `\" + target.table + \"` WHERE `\" + target.column + \"` IN (\" + ph + \")\"\n				if _, err := tx.Exec(query, args...); err != nil {\n					return err\n				}\n			}", "table-coverage"},
+		mutation{"removekeys-prefix-by-child", "kv/sqlite3/provider.go", "DELETE FROM `prefix_entries` WHERE `prefix` IN (", "DELETE FROM `prefix_entries` WHERE `child` IN (", "table-coverage"},
 		mutation{"export-scan-targets-hoisted", "kv/sqlite3/provider.go", "		for i, key := range keys {\n			var (\n				simpleValue []byte\n				prefix      [][]byte\n				leaseToken  int64\n			)\n", "		var (\n			simpleValue []byte\n			prefix      [][]byte\n			leaseToken  int64\n		)\n		for i, key := range keys {\n			prefix = nil\n", "export-fresh"},
 		mutation{"sqlite-norm-closed-low", "kv/sqlite3/queries.go", "WHERE (`hash` > ? AND `hash` < ?) OR `hash` = ? ORDER BY", "WHERE (`hash` >= ? AND `hash` < ?) OR `hash` = ? ORDER BY", "sql-range"},
 		mutation{"sqlite-choice-geq", "kv/sqlite3/provider.go", "	if high > low {\n		stmt = s.stmts.rangeKeysNorm", "	if high >= low {\n		stmt = s.stmts.rangeKeysNorm", "sql-range"},
@@ -630,29 +635,7 @@ func runC17(c *Ctx) {
 	emptinessCoversAllParts(c, "range-filter")
 
 	// (b) table coverage
-	tables := map[string]bool{}
-	reCreate := regexp.MustCompile("(?i)CREATE\\s+TABLE\\s+(?:IF\\s+NOT\\s+EXISTS\\s+)?`?([a-z_]+)`?")
-	for _, body := range readRepoGlob(c, "kv/sqlite3/migrations/*.sql") {
-		for _, m := range reCreate.FindAllStringSubmatch(body, -1) {
-			tables[m[1]] = true
-		}
-	}
-	c.Floor("tables created by the migrations", len(tables), 4)
-	rmk := c.Func("kv/sqlite3", "SqliteKV", "RemoveKeys")
-	deleted := map[string]bool{}
-	for _, call := range rmk.Calls(true, func(call *ast.CallExpr) bool {
-		se, ok := call.Fun.(*ast.SelectorExpr)
-		return ok && se.Sel.Name == "Exec" && len(call.Args) >= 1
-	}) {
-		g := rmk.enclosing(call)
-		q := leftmostString(g, call.Args[0])
-		if v, t := classifySQL(q); v == "DELETE" {
-			deleted[t] = true
-		}
-	}
-	for t := range tables {
-		c.Ob("table-coverage", "sqlite.RemoveKeys#deletes-"+t, rmk.Decl.Pos(), deleted[t], "RemoveKeys removes the moved keys from every table (a leftover row resurrects data or blocks a lease after the range moved)")
-	}
+	removeKeysCoverage(c, "table-coverage")
 	// Export / Import statement coverage
 	usedBy := func(fn *Fn) map[string]bool {
 		used := map[string]bool{}
@@ -721,6 +704,60 @@ func runC17(c *Ctx) {
 		})
 		c.Ob("import-length", "sqlite.Import#values[i]", ix.Pos(), ok, "values[i] is indexed only after len(keys) == len(values) was established")
 	}
+}
+
+// removeKeysCoverage: the donor's hard delete after a hand-off removes every row of the
+// moved keys - from every table the migrations create, matched by the column that
+// identifies a key's rows in that table. A leftover row resurrects data (or blocks a
+// lease) when the range comes back. Shared by C17 and C03.
+func removeKeysCoverage(c *Ctx, rule string) {
+	stmts := sqliteStatements(c)
+	tables := map[string]bool{}
+	reCreate := regexp.MustCompile("(?i)CREATE\\s+TABLE\\s+(?:IF\\s+NOT\\s+EXISTS\\s+)?`?([a-z_]+)`?")
+	for _, body := range readRepoGlob(c, "kv/sqlite3/migrations/*.sql") {
+		for _, m := range reCreate.FindAllStringSubmatch(body, -1) {
+			tables[m[1]] = true
+		}
+	}
+	c.Floor("tables created by the migrations", len(tables), 4)
+	rmk := c.Func("kv/sqlite3", "SqliteKV", "RemoveKeys")
+	// the column that identifies "the rows of key k" in each table: the one the per-key
+	// read statements select by with the key as their (first) argument
+	keyCol := map[string]string{}
+	for _, f := range []string{"exportSimpleGet", "exportPrefixList", "exportLeaseGet", "trackerLookup"} {
+		if st := stmts[f]; st != nil {
+			if m := reWhereCol.FindStringSubmatch(st.query); m != nil {
+				keyCol[st.table] = m[1]
+			}
+		}
+	}
+	deleted := map[string]bool{}
+	delCol := map[string]string{}
+	for _, call := range rmk.Calls(true, func(call *ast.CallExpr) bool {
+		se, ok := call.Fun.(*ast.SelectorExpr)
+		return ok && se.Sel.Name == "Exec" && len(call.Args) >= 1
+	}) {
+		g := rmk.enclosing(call)
+		// every string the query expression can be (constants, concatenation, a loop over
+		// a package-level table of {table, column})
+		for _, q := range strAlternatives(g, call.Args[0]) {
+			if v, t := classifySQL(q); v == "DELETE" {
+				deleted[t] = true
+				if m := reWhereCol.FindStringSubmatch(q); m != nil {
+					delCol[t] = m[1]
+				} else {
+					delCol[t] = "<no WHERE column>"
+				}
+			}
+		}
+	}
+	for t := range tables {
+		c.Ob(rule, "sqlite.RemoveKeys#deletes-"+t, rmk.Decl.Pos(), deleted[t], "RemoveKeys removes the moved keys from every table (a leftover row resurrects data or blocks a lease after the range moved)")
+		if deleted[t] && keyCol[t] != "" {
+			c.Ob(rule, "sqlite.RemoveKeys#"+t+"-matched-by-its-key-column", rmk.Decl.Pos(), delCol[t] == keyCol[t], fmt.Sprintf("the rows of a key in %s are the ones with %s = key (that is how the per-key reads select them); RemoveKeys deletes by %s", t, keyCol[t], delCol[t]))
+		}
+	}
+	c.Floor("tables with a known key column", len(keyCol), 4)
 }
 
 func leftmostString(g *Fn, e ast.Expr) string {
